@@ -292,7 +292,7 @@ def calls_to(body, suffixes):
 
 
 def err3(ctx):
-    r = RuleResult("ERR-3", "group/line/kind indices are the enumerate indices of the slices the formatters index; positions built from self.group/self.line", floor=218)
+    r = RuleResult("ERR-3", "group/line/kind indices are the enumerate indices of the slices the formatters index; positions built from self.group/self.line", floor=221)
     lib = ctx.lib
     # ---- (i) parse_rule_groups
     prg = ctx.fn(lib, "asca::parse_rule_groups")
@@ -418,6 +418,55 @@ def err3(ctx):
         if fb.param_names[1:3] != ["into", "from"]:
             r.note("format_alias_error parameters are %s" % fb.param_names)
         _check_formatter_tuple(r, fb, "kind", "line")
+    # ---- (ii-b) the text that is lexed is the text the formatter prints: the lexer's character slice is `<line>.chars().collect()`
+    #      of the very element of the caller's list, untransformed (columns are measured in it)
+    TEXT_OK = ("chars", "collect", "as_str", "as_ref", "as_slice", "iter", "copied", "cloned", "to_vec", "deref", "borrow")
+    n_text = 0
+    for fb_, ctors in ((prg, ("lexer::Lexer::new",)), (pa, ("alias::lexer::AliasLexer::new",))):
+        slets = single_lets(fb_.hir["body"])
+        elems = set()
+        for pat, it, body, ln in for_loops(fb_.hir["body"]):
+            e = enumerate_index(pat, it, with_adaptors=True, lets=slets)
+            if e:
+                elems.add(e[1])
+        for p_, args, ln in calls_to(fb_, ctors):
+            cb = lib.body(p_)
+            ti = [i for i, t in enumerate(cb.param_tys) if t.endswith("[char]")]
+            if not ti:
+                raise AnchorMissing("%s has no `&[char]` parameter" % p_)
+            e = hirq.strip(args[ti[0]])
+            chain, foreign = [], []
+            hops = 0
+            while hops < 12:
+                hops += 1
+                if e.get("e") in ("addr", "unary", "cast"):
+                    e = hirq.strip(e["a"])
+                elif e.get("e") == "mcall":
+                    chain.append(e["name"])
+                    if e["name"] not in TEXT_OK:
+                        foreign.append(e["name"])
+                    e = hirq.strip(e["recv"])
+                elif e.get("e") == "call":
+                    fp = (hirq.strip(e["f"]).get("path") or "?")
+                    foreign.append(fp.rsplit("::", 1)[-1])
+                    if not e["args"]:
+                        break
+                    e = hirq.strip(e["args"][0])
+                elif e.get("e") == "path" and "local" in e and e["local"] in slets and e["local"] not in elems:
+                    e = hirq.strip(slets[e["local"]])
+                else:
+                    break
+            src = expr_name(e)
+            ok = src[0] == "local" and src[1] in elems and not foreign
+            n_text += 1
+            r.inst("%s: %s lexes `%s.%s` of the enumerated line" % (fb_.path.rsplit("::", 1)[-1], p_.rsplit("::", 2)[-2], src[-1], ".".join(reversed(chain))), fn_loc(fb_, ln),
+                   "ok" if ok else "report")
+            if not ok:
+                r.report("ERR-3|%s|lexed-text" % fb_.path.rsplit("::", 1)[-1], fn_loc(fb_, ln), fb_.path,
+                         "the characters handed to %s are %s: columns in errors are measured in a different text than the line the formatter prints"
+                         % (p_.rsplit("::", 2)[-2], ("transformed by `%s` first" % "`, `".join(foreign)) if foreign else "not taken from the enumerated line (%s)" % (src[-1],)))
+    if n_text < 3:
+        raise AnchorMissing("lexer constructions in parse_rule_groups/parse_aliases: only %d found" % n_text)
     # ---- (iii) constructors of positions / tokens in lexers and parsers
     n_pos = 0
     mods = ("asca::lexer::", "asca::parser::", "asca::alias::lexer::", "asca::alias::parser::")
